@@ -3,6 +3,8 @@ import OFV.Core.Json
 import OFV.Model.C19
 import OFV.Model.C19Cost
 import OFV.Spec.C19
+import OFV.Model.C04
+import OFV.Generated.Tables
 
 namespace OFV
 namespace Handlers
@@ -37,6 +39,28 @@ def handle (op : String) (j : Json) : Option (Except String Json) :=
       | .error e => .ok (J.obj [("error", Json.str e)])
   | "c19.lambda_norm" => some do
       .ok (J.ofRat (lambdaNorm (← ratMat (← J.field j "one")) (← ratMat (← J.field j "two"))))
+  | "c19.spec.dch_pauli_norm" => some do
+      -- the Model of jordan_wigner(DiagonalCoulombHamiltonian) on the same real matrices: was the run exact
+      -- (hypothesis of lambda_norm_spec), are the non-identity coefficients real, and their 1-norm
+      let T ← ratMat (← J.field j "one"); let V ← ratMat (← J.field j "two")
+      let c ← J.gq (← J.field j "const")
+      let n := T.length
+      let one := Spec.C19.flatReal n T
+      let two := Spec.C19.flatReal n V
+      let img := Model.C04.jwDCH Generated.eqTolerance n c one two
+      .ok (J.obj [("ok", Json.bool (Model.C04.jwDCHOk Generated.eqTolerance n c one two)),
+                  ("real", Json.bool (img.all fun tc => tc.1 == [] || tc.2.im == 0)),
+                  ("norm", J.ofRat (Spec.C19.pauliListNorm img false))])
+  | "c19.spec.mol_op" => some do
+      -- the Spec operator of get_one_norm_int (compared by the harness with its own construction)
+      let h ← ratMat (← J.field j "h"); let g ← ratT4 (← J.field j "g")
+      .ok (J.ofOp (Spec.C19.molOp h.length (← J.rat (← J.field j "const")) h g))
+  | "c19.spec.identity_coef" => some do
+      -- Tr(H) over all Fock states of the molecular Hamiltonian (one_norm_identity_coefficient)
+      let h ← ratMat (← J.field j "h"); let g ← ratT4 (← J.field j "g")
+      let n := h.length
+      let cols := (List.range (2 ^ (2 * n))).map (Spec.applyF (Spec.C19.molOp n (← J.rat (← J.field j "const")) h g))
+      .ok (J.ofGQ (Spec.C19.pauliTrace (2 * n) cols 0 0))
   | "c19.one_norm" => some do
       let h ← ratMat (← J.field j "h"); let g ← ratT4 (← J.field j "g")
       if (← J.bool (← J.field j "woconst")) then .ok (J.ofRat (oneNormWoConst h g))
